@@ -46,6 +46,22 @@ TEXT_BODY = ("For(target=Name(id='node', ctx=Store()), iter=Call(func=Attribute(
              "|Return(value=Attribute(value=Name(id='node', ctx=Load()), attr='content', ctx=Load()))")
 
 
+TO_STRING = ("If(test=Call(func=Name(id='isinstance', ctx=Load()), args=[Name(id='value', ctx=Load()), Name(id='str', ctx=Load())], keywords=[]), body=[Return(value=Name(id='value', ctx=Load()))], orelse=[])"
+             "|If(test=Call(func=Name(id='isinstance', ctx=Load()), args=[Name(id='value', ctx=Load()), Name(id='bool', ctx=Load())], keywords=[]), body=[Return(value=IfExp(test=Name(id='value', ctx=Load()), body=Constant(value='true'), orelse=Constant(value='false')))], orelse=[])"
+             "|If(test=Compare(left=Name(id='value', ctx=Load()), ops=[NotEq()], comparators=[Name(id='value', ctx=Load())]), body=[Return(value=Constant(value='NaN'))], orelse=[])"
+             "|If(test=Compare(left=Name(id='value', ctx=Load()), ops=[In()], comparators=[Tuple(elts=[Call(func=Name(id='float', ctx=Load()), args=[Constant(value='inf')], keywords=[]), Call(func=Name(id='float', ctx=Load()), args=[Constant(value='-inf')], keywords=[])], ctx=Load())]), body=[Return(value=IfExp(test=Compare(left=Name(id='value', ctx=Load()), ops=[Gt()], comparators=[Constant(value=0)]), body=Constant(value='Infinity'), orelse=Constant(value='-Infinity')))], orelse=[])"
+             "|If(test=Compare(left=Name(id='value', ctx=Load()), ops=[Eq()], comparators=[Call(func=Name(id='int', ctx=Load()), args=[Name(id='value', ctx=Load())], keywords=[])]), body=[Return(value=Call(func=Name(id='str', ctx=Load()), args=[Call(func=Name(id='int', ctx=Load()), args=[Name(id='value', ctx=Load())], keywords=[])], keywords=[]))], orelse=[])"
+             "|Return(value=Call(func=Name(id='repr', ctx=Load()), args=[Call(func=Name(id='float', ctx=Load()), args=[Name(id='value', ctx=Load())], keywords=[])], keywords=[]))")
+
+
+def _ts(e, idx):
+    """_to_string(<param>) -> index of the parameter"""
+    if (isinstance(e, ast.Call) and isinstance(e.func, ast.Name) and e.func.id == "_to_string" and len(e.args) == 1
+            and isinstance(e.args[0], ast.Name) and e.args[0].id in idx and not e.keywords):
+        return idx[e.args[0].id]
+    return None
+
+
 def _body(fn, ctxname, params, vararg):
     stmts = [s for s in fn.body if not (isinstance(s, ast.Expr) and isinstance(s.value, ast.Constant))]
     idx = {p: i for i, p in enumerate(params)}
@@ -56,6 +72,23 @@ def _body(fn, ctxname, params, vararg):
                 and isinstance(e.func.value, ast.Constant) and e.func.value.value == "" and len(e.args) == 1
                 and isinstance(e.args[0], ast.Name) and e.args[0].id == vararg and not params and not e.keywords):
             return "FJoinAll"
+        # "".join(_to_string(x) for x in varargs)
+        if (isinstance(e, ast.Call) and isinstance(e.func, ast.Attribute) and e.func.attr == "join"
+                and isinstance(e.func.value, ast.Constant) and e.func.value.value == "" and len(e.args) == 1
+                and isinstance(e.args[0], ast.GeneratorExp) and not params and not e.keywords
+                and ast.dump(e.args[0]) == ast.dump(ast.parse("(_to_string(x) for x in %s)" % vararg, mode="eval").body)):
+            return "FJoinAllS"
+        # _to_string(a) in _to_string(b)
+        if isinstance(e, ast.Compare) and len(e.ops) == 1 and isinstance(e.ops[0], ast.In):
+            a, b = _ts(e.left, idx), _ts(e.comparators[0], idx)
+            if a is not None and b is not None:
+                return "(FInS %d %d)" % (a, b)
+        # _to_string(a).startswith(_to_string(b))
+        if (isinstance(e, ast.Call) and isinstance(e.func, ast.Attribute) and e.func.attr == "startswith"
+                and len(e.args) == 1 and not e.keywords):
+            a, b = _ts(e.func.value, idx), _ts(e.args[0], idx)
+            if a is not None and b is not None:
+                return "(FStartsWithS %d %d)" % (a, b)
         # a in b
         if (isinstance(e, ast.Compare) and len(e.ops) == 1 and isinstance(e.ops[0], ast.In)
                 and isinstance(e.left, ast.Name) and isinstance(e.comparators[0], ast.Name)
@@ -95,6 +128,12 @@ def gen_xeval():
             continue
         if not isinstance(n, ast.FunctionDef):
             raise Unsupported("unexpected top-level statement in xpath/functions.py: %s" % type(n).__name__)
+        if n.name == "_to_string":
+            # the helper the string functions apply to their arguments: pinned to the shape XPath/Eval.v py_to_string models
+            stmts = [x for x in n.body if not (isinstance(x, ast.Expr) and isinstance(x.value, ast.Constant))]
+            if [a.arg for a in n.args.args] != ["value"] or "|".join(ast.dump(x) for x in stmts) != TO_STRING:
+                raise Unsupported("functions._to_string is no longer the function XPath/Eval.v py_to_string models")
+            continue
         name = _registered_name(n)
         if name is None:
             raise Unsupported("function %s is not registered the expected way" % n.name)
@@ -152,21 +191,13 @@ def gen_xeval():
         gens.append((m.name, sorted(parts)))
     out.append("Definition axis_generators : list (str * list str) := [\n" +
                ";\n".join("  (%s, [%s])" % (_cstr(k), "; ".join(_cstr(p) for p in v)) for k, v in gens) + "].\n")
-    # ---- string -> number: the pattern of ast._to_number and what float() makes of the digits it admits
-    m = re.search(r'_match_number\s*=\s*re\.compile\(r"([^"]*)"\)\.fullmatch', _read("_delb/xpath/ast.py"))
-    if not m or m.group(1) != r"\s*-?(\d+(\.\d*)?|\.\d+)\s*":
-        raise Unsupported("ast._match_number is no longer the pattern \\s*-?(\\d+(\\.\\d*)?|\\.\\d+)\\s* without flags")
-    digits = []
-    rx = re.compile(r"\d")
-    for c in range(0x110000):
-        ch = chr(c)
-        if rx.fullmatch(ch):
-            v = float(ch)
-            if v != int(v) or not 0 <= v <= 9:
-                raise Unsupported("float(%r)" % ch)
-            digits.append((c, int(v)))
-    out.append("(* every character the regex class \\d admits in a str pattern, with the digit value float() gives it *)")
-    out.append("Definition unicode_digits : list (N * N) := [%s]%%N.\n" % "; ".join("(%d, %d)" % d for d in digits))
+    # ---- string -> number: the pattern of ast._to_number must be the XPath 1.0 Number lexical form (XML whitespace,
+    # ASCII digits), which XPath/Num.v xpath_number implements
+    src = _read("_delb/xpath/ast.py")
+    m = re.search(r'_match_number\s*=\s*re\.compile\(\s*r"([^"]*)"\s*\)\.fullmatch', src)
+    if not m or m.group(1) != r"[ \t\r\n]*-?([0-9]+(\.[0-9]*)?|\.[0-9]+)[ \t\r\n]*":
+        raise Unsupported("ast._match_number is no longer the XPath 1.0 number pattern with ASCII classes and no flags")
+    out.append("Definition number_pattern_is_xpath10 : bool := true.\n")
     return "\n".join(out)
 
 
